@@ -21,7 +21,8 @@ def queries(R, C, vals, dtype='int'):
     cs = list(range(-C - 3, C + 3)) + [10 ** 6, -10 ** 6]
     cells = [[r, c] for r in rs for c in cs if -2 <= r <= R + 1 or c in (0, -1, 1) or r == c or r == -c]
     rows = rs
-    civ = [[r, v] for r in rs for v in sorted(set(vals) | ({0, 7} if dtype != 'bool' else {0, 1}))]
+    # value queries: stored values, the default, an absent value, and a value the dtype cannot hold (1.5 / 2, sent as a code)
+    civ = [[r, v] for r in rs for v in sorted(set(vals) | ({0, 7} if dtype != 'bool' else {0, 1}) | ({999983} if dtype == 'int' else {999985} if dtype == 'bool' else set()))]
     return {'cells': cells, 'rows': rows, 'civ': civ}
 
 
